@@ -256,6 +256,7 @@ package scipipe
 //@ func (*Task).anyOutputsExist(t) (anyFileExists)
 //@   props C02 C03
 //@   replay fsread
+//@   requires has-process: t.Process != nil
 //@   ensures def: anyFileExists <==> exists k string :: nonStreamOut(t, k) && statOK(fsEpoch, t.OutIPs[k].path)
 //@   loop 0 invariant vis: forall k string :: $visited[k] ==> k in t.OutIPs
 //@   loop 0 invariant acc: anyFileExists <==> exists k string :: $visited[k] && !t.OutIPs[k].doStream && statOK(fsEpoch, t.OutIPs[k].path)
